@@ -36,7 +36,8 @@ spec -> code: MC_X03/MCSpec - the complete settings graph of each of five key gr
               compared with the admitted sets.
               MC_X03/SSpec - every configuration of two key groups, exported with the effects a start-up
               must show; replayed by running AppConfig.ready() on pristine Django template internals
-              (stock tag_re, no dynamic component registered, no template cache).
+              (stock tag_re, no dynamic component registered, no template cache), and a sample of them
+              again in genuinely new processes (settings.configure(COMPONENTS=...) + django.setup()).
 code -> spec: seeded random histories over ALL keys with wider values (nested override_settings blocks
               entered and left, BASE_DIR as str / Path, reads, registry reads, start-ups) recorded on the
               real objects and validated in one TLC batch by Trace_X03.
@@ -72,6 +73,7 @@ from typing import Any, Dict, Iterable, List, Optional, Tuple
 
 from . import tlc
 from .core import Check, MachineryError, workdir
+from .pool import pmap
 
 PID = "X03"
 BASE0 = "/verif/.work"
@@ -96,6 +98,7 @@ REGEXES = {"min": re.compile(r"\.min\.(js|css)\Z"), "any": re.compile(r".*"), "u
 LIBPKG = "vfx03libs"
 LIBPOOL = [f"{LIBPKG}.mod_a", f"{LIBPKG}.mod_b", f"{LIBPKG}.mod_c"]
 DEV_OUTCOME = "default-limit-applied"
+WORKERS = 6
 
 # key groups of the model-checked instances: keys that vary, extra accessors read, registry reads, BASE_DIRs
 GROUPS: Dict[str, Dict[str, Any]] = {
@@ -184,6 +187,18 @@ def dec(v: Dict[str, Any]) -> Any:
     if t == "list":
         return [_dec_item(s) for s in v["l"]]
     raise MachineryError(f"value {v} cannot be given by a user")
+
+
+def show(v: Any) -> Any:
+    """Readable form of typed values for evidence samples."""
+    if isinstance(v, dict) and set(v) == {"t", "b", "i", "s", "l"}:
+        t = v["t"]
+        return {"bool": v["b"], "int": v["i"], "str": v["s"], "list": v["l"], "none": None}.get(t, f"<{t}{':' + v['s'] if v['s'] else ''}>")
+    if isinstance(v, dict):
+        return {k: show(x) for k, x in v.items()}
+    if isinstance(v, list):
+        return [show(x) for x in v]
+    return v
 
 
 # ---------------------------------------------------------------- driving django.conf.settings
@@ -322,6 +337,7 @@ def _fresh_registry_behavior() -> Dict[str, Any]:
     if s["t"] != "str":
         return s
     try:
+        harness()
         out = Template('{% load vfx03lib %}{% vfx03c "vfx03_inner" %}{% endvfx03c %}').render(Context({"outer": "OUT"}))
         # (the output may be wrapped by debug_highlight_components)
         behaves = "django" if "[OUT|O]" in out else "isolated" if "[|O]" in out else "other:" + out[:40]
@@ -332,20 +348,64 @@ def _fresh_registry_behavior() -> Dict[str, Any]:
     return s
 
 
+def _new_obs() -> Dict[str, Any]:
+    return {"failed": "", "dyn": [], "ml": "", "stock": False, "cached": [], "fresh": ABSENT,
+            "watch": False, "autod": False, "loaded": []}
+
+
+def _observe_started(obs: Dict[str, Any], counts: List[int], stock_tag_re) -> None:
+    """What can be seen after a start-up (in-process re-run or a genuinely new process)."""
+    import django.template.base as tb
+    from django.template import Context, Template
+    import django_components.cache as dcache
+    from django_components import cached_template, registry
+    from django_components.app_settings import app_settings
+    from django_components.components.dynamic import DynamicComponent
+    obs["loaded"] = [m for m in LIBPOOL if m in sys.modules]
+    obs["stock"] = tb.tag_re is stock_tag_re or (
+        tb.tag_re.pattern == stock_tag_re.pattern and tb.tag_re.flags == stock_tag_re.flags)
+    # the template cache first: nothing else has been compiled through it yet
+    done = 0
+    for n in counts:
+        while done < n:
+            cached_template(f"vfx03 template {done}")
+            done += 1
+        obs["cached"].append([n, len(dcache.get_template_cache().cache)])
+    try:
+        out = Template("[{{ x\n}}]").render(Context({"x": "V"}))
+        obs["ml"] = {"[V]": "yes", "[{{ x\n}}]": "no"}.get(out, "other:" + out)
+    except Exception as e:  # noqa: BLE001
+        obs["ml"] = "raises:" + type(e).__name__
+    names = sorted(n for n, c in registry.all().items() if c is DynamicComponent)
+    try:
+        usable = names if app_settings.TAG_FORMATTER == FORMATTERS[0] else []   # the probe is written in that syntax
+    except Exception:  # noqa: BLE001
+        usable = []
+    for n in usable:                    # ... and it can be used under that name
+        try:
+            registry.register("vfx03_target", harness()["target"])
+            src = '{% component "' + n + '" is="vfx03_target" %}{% endcomponent %}'
+            if "TARGET-OK" not in Template(src).render(Context({})):
+                names = names + ["<" + n + " renders something else>"]
+        except Exception as e:  # noqa: BLE001
+            names = names + [f"<{n} unusable: {type(e).__name__}>"]
+    obs["dyn"] = names
+    obs["fresh"] = _fresh_registry_behavior()
+
+
 def startup(counts: List[int]) -> Dict[str, Any]:
     """Run the app's start-up (AppConfig.ready()) under the current settings on what a new process
     has: stock django.template.base.tag_re, no dynamic component in the default registry, no template
     cache, library pool not imported.  Everything global is put back afterwards."""
     import django.template.base as tb
     from django.apps import apps
-    from django.template import Context, Template
     from django.utils.autoreload import file_changed
     import django_components.autodiscovery as dauto
     import django_components.cache as dcache
-    from django_components import cached_template, registry
+    from django_components import registry
     from django_components.components.dynamic import DynamicComponent
     from . import boot
-    h = harness()
+    harness()
     lib = registry.library
     saved = {
         "tag_re": tb.tag_re, "cn": tb.Template.compile_nodelist, "render": tb.Template.render,
@@ -360,8 +420,7 @@ def startup(counts: List[int]) -> Dict[str, Any]:
         ran.append(1)
         return saved["auto"](*a, **kw)
 
-    obs: Dict[str, Any] = {"failed": "", "dyn": [], "ml": "", "stock": False, "cached": [], "fresh": ABSENT,
-                           "watch": False, "autod": False, "loaded": []}
+    obs = _new_obs()
     try:
         for name, cls in list(registry.all().items()):
             if cls is DynamicComponent:
@@ -378,34 +437,7 @@ def startup(counts: List[int]) -> Dict[str, Any]:
             return obs
         obs["autod"] = bool(ran)
         obs["watch"] = len(file_changed.receivers) > len(saved["recv"])
-        obs["loaded"] = [m for m in LIBPOOL if m in sys.modules]
-        obs["stock"] = tb.tag_re is boot.STOCK["tag_re"] or (
-            tb.tag_re.pattern == boot.STOCK["tag_re"].pattern and tb.tag_re.flags == boot.STOCK["tag_re"].flags)
-        # the template cache first: nothing else has been compiled through it yet
-        done = 0
-        for n in counts:
-            while done < n:
-                cached_template(f"vfx03 template {done}")
-                done += 1
-            obs["cached"].append([n, len(dcache.get_template_cache().cache)])
-        try:
-            out = Template("[{{ x\n}}]").render(Context({"x": "V"}))
-            obs["ml"] = {"[V]": "yes", "[{{ x\n}}]": "no"}.get(out, "other:" + out)
-        except Exception as e:  # noqa: BLE001
-            obs["ml"] = "raises:" + type(e).__name__
-        names = sorted(n for n, c in registry.all().items() if c is DynamicComponent)
-        from django_components.app_settings import app_settings
-        usable = names if app_settings.TAG_FORMATTER == FORMATTERS[0] else []   # the probe is written in that syntax
-        for n in usable:                    # ... and it can be used under that name
-            try:
-                registry.register("vfx03_target", h["target"])
-                src = '{% component "' + n + '" is="vfx03_target" %}{% endcomponent %}'
-                if "TARGET-OK" not in Template(src).render(Context({})):
-                    names = names + ["<" + n + " renders something else>"]
-            except Exception as e:  # noqa: BLE001
-                names = names + [f"<{n} unusable: {type(e).__name__}>"]
-        obs["dyn"] = names
-        obs["fresh"] = _fresh_registry_behavior()
+        _observe_started(obs, counts, boot.STOCK["tag_re"])
         return obs
     finally:
         dauto.autodiscover = saved["auto"]
@@ -425,6 +457,41 @@ def startup(counts: List[int]) -> Dict[str, Any]:
             sys.modules.pop(m, None)
             if mod is not None:
                 sys.modules[m] = mod
+
+
+def _child_main(conf: Dict[str, Any], counts: List[int]) -> Dict[str, Any]:
+    """A genuinely new process: Django configured with COMPONENTS given as the abstract configuration
+    says (settings as in vf/boot.py otherwise), django.setup(), then the same observations."""
+    import django
+    import django.template.base as tb
+    from django.conf import settings
+    from django.utils.autoreload import file_changed
+    stock = tb.tag_re
+    kw: Dict[str, Any] = dict(
+        BASE_DIR=conf["base"], SECRET_KEY="verif", INSTALLED_APPS=("django_components",), MIDDLEWARE=[],
+        TEMPLATES=[{"BACKEND": "django.template.backends.django.DjangoTemplates", "DIRS": [],
+                    "OPTIONS": {"builtins": ["django_components.templatetags.component_tags"],
+                                "loaders": [("django.template.loaders.locmem.Loader", {})]}}],
+        DATABASES={}, ROOT_URLCONF="django_components.urls", STATIC_URL="/static/", ALLOWED_HOSTS=["*"],
+        DEBUG=False, USE_TZ=True)
+    if conf["form"] != "none":
+        kw["COMPONENTS"] = build_components(conf["form"], conf["given"])   # as a settings.py would
+    settings.configure(**kw)
+    import django_components.autodiscovery as dauto
+    ran: List[int] = []
+    orig = dauto.autodiscover
+    dauto.autodiscover = lambda *a, **k: (ran.append(1), orig(*a, **k))[1]
+    before = len(file_changed.receivers)
+    obs = _new_obs()
+    try:
+        django.setup()
+    except Exception as e:  # noqa: BLE001
+        obs["failed"] = "ValueError" if isinstance(e, ValueError) else type(e).__name__
+        return obs
+    obs["autod"] = bool(ran)
+    obs["watch"] = len(file_changed.receivers) > before
+    _observe_started(obs, counts, stock)
+    return obs
 
 
 # ---------------------------------------------------------------- TLC instances
@@ -533,6 +600,14 @@ def replay_transition(row: Dict[str, Any], flavour: int = 0) -> List[Dict[str, A
     return bad
 
 
+def _replay_transition_item(item: Tuple[int, Dict[str, Any]]) -> List[Dict[str, Any]]:
+    return replay_transition(item[1], item[0])
+
+
+def _replay_startup_item(item: Tuple[int, Dict[str, Any]]) -> List[Dict[str, Any]]:
+    return replay_startup(item[1], item[0])
+
+
 def model_check_transitions(chk: Check, groups: List[str], rich: bool, all_reads: bool) -> None:
     w = workdir("x03mc")
     jobs = []
@@ -546,32 +621,41 @@ def model_check_transitions(chk: Check, groups: List[str], rich: bool, all_reads
         chk.add("states", distinct)
         chk.add("transitions", generated)
         chk.add("transitions_replayed", len(rows))
-        for i, row in enumerate(rows):
+        results = pmap(_replay_transition_item, list(enumerate(rows)), workers=WORKERS, per_item_s=20.0, chunk=400)
+        for i, (row, bads) in enumerate(zip(rows, results)):
             op = row["call"]["op"]
             chk.count([g, row["call"], row["pre"]], nontrivial=bool(row["pre"]["given"]) or op not in ("read", "regread"))
-            for b in replay_transition(row, i):
+            if not isinstance(bads, list):
+                raise MachineryError(f"transition replay did not finish: {bads}")
+            for b in bads:
                 chk.violation({"kind": "transition", "group": g, "row": row, "flavour": i},
                               {k: b[k] for k in ("what", "expected", "observed")}, key=b["key"])
         pick = [r for r in rows if r["call"]["op"] == "set" and len(r["pre"]["given"]) == 1]
         if pick:
             r = pick[len(pick) // 2]
-            chk.sample({"transition": {"group": g, "call": r["call"], "pre": r["pre"],
-                                       "after": r["after"][:2]}}, limit=5)
+            chk.sample(show({"transition": {"group": g, "call": {k: r["call"][k] for k in ("op", "k", "v")},
+                                            "pre": r["pre"], "after": r["after"][:2]}}), limit=5)
 
 
 # ---------------------------------------------------------------- spec -> code: start-ups
-def replay_startup(row: Dict[str, Any], flavour: int = 0) -> List[Dict[str, Any]]:
+def replay_startup(row: Dict[str, Any], flavour: int = 0,
+                   observed: Optional[Dict[str, Any]] = None) -> List[Dict[str, Any]]:
+    """Compare a start-up under row["conf"] with what the specification exported for it.  `observed`:
+    the observation of a genuinely new process (otherwise an in-process start-up is made)."""
     bad: List[Dict[str, Any]] = []
 
     def fail(what, expected, observed, key=None):
         bad.append({"what": what, "expected": expected, "observed": observed, "key": key})
 
-    live = Live()
-    try:
-        live.push(row["conf"], flavour)
-        o = startup(COUNTS)
-    finally:
-        live.close()
+    if observed is not None:
+        o = observed
+    else:
+        live = Live()
+        try:
+            live.push(row["conf"], flavour)
+            o = startup(COUNTS)
+        finally:
+            live.close()
     if o["failed"]:
         if not (row["mayfail"] and o["failed"] == "ValueError"):
             fail("start-up raised", "no exception" if not row["mayfail"] else "ValueError or none", o["failed"])
@@ -611,15 +695,57 @@ def model_check_startups(chk: Check, groups: List[str], rich: bool) -> None:
         chk.add("states", distinct)
         chk.add("transitions", generated)
         chk.add("startups_replayed", len(rows))
-        for i, row in enumerate(rows):
+        results = pmap(_replay_startup_item, list(enumerate(rows)), workers=WORKERS, per_item_s=30.0, chunk=20)
+        for i, (row, bads) in enumerate(zip(rows, results)):
             chk.count(["startup", row["conf"]], nontrivial=True)
-            for b in replay_startup(row, i):
+            if not isinstance(bads, list):
+                raise MachineryError(f"start-up replay did not finish: {bads}")
+            for b in bads:
                 chk.violation({"kind": "startup", "group": g, "row": row, "flavour": i},
                               {k: b[k] for k in ("what", "expected", "observed")}, key=b["key"])
         if rows:
             r = rows[len(rows) // 2]
-            chk.sample({"startup": {"conf": r["conf"], "dyn": r["dyn"], "multiline": r["multiline"],
-                                    "cached": r["cached"], "fresh": r["fresh"]}}, limit=7)
+            chk.sample(show({"startup": {"conf": r["conf"], "dyn": r["dyn"], "multiline": r["multiline"],
+                                         "cached": r["cached"], "fresh": r["fresh"]}}), limit=7)
+
+
+def new_process_startup(conf: Dict[str, Any], patched_app_settings: Optional[str] = None) -> Dict[str, Any]:
+    """`patched_app_settings`: path of a patched copy of app_settings.py that the child imports in place
+    of django_components.app_settings (selftest: validation of the proposed repair, /repo untouched)."""
+    import subprocess
+    env = dict(os.environ, PYTHONHASHSEED="0", PYTHONDONTWRITEBYTECODE="1")
+    env.pop("X03_PATCHED_APP_SETTINGS", None)
+    if patched_app_settings:
+        env["X03_PATCHED_APP_SETTINGS"] = patched_app_settings
+    p = subprocess.run([sys.executable, "-m", "vf.x03", "--child", json.dumps({"conf": conf, "counts": COUNTS})],
+                       cwd=str(Path(__file__).resolve().parent.parent), env=env, capture_output=True, text=True,
+                       timeout=120)
+    lines = [l for l in p.stdout.splitlines() if l.startswith("X03CHILD ")]
+    if p.returncode != 0 or len(lines) != 1:
+        raise MachineryError(f"start-up child failed (rc={p.returncode}):\n{p.stdout[-400:]}\n{p.stderr[-1200:]}")
+    return json.loads(lines[0][len("X03CHILD "):])
+
+
+def new_process_startups(chk: Check, groups: List[str], rich: bool, every: int) -> None:
+    """Every `every`-th exported start-up configuration again, this time in a genuinely new process
+    (settings.configure(COMPONENTS=...) + django.setup()), compared with the same exported expectation."""
+    w = workdir("x03np")
+    rows: List[Tuple[str, Dict[str, Any]]] = []
+    for g in groups:
+        cfg = w / f"su_{g}.cfg"
+        _group_cfg(cfg, g, "su", rich, False)
+        allrows = _export(f"su:{g}", cfg)[0]
+        rows += [(g, r) for i, r in enumerate(allrows) if i % every == 0]
+    with ThreadPoolExecutor(max_workers=6) as ex:
+        obs = list(ex.map(lambda gr: new_process_startup(gr[1]["conf"]), rows))
+    for (g, row), o in zip(rows, obs):
+        chk.count(["new-process-startup", row["conf"]], nontrivial=True)
+        for b in replay_startup(row, observed=o):
+            chk.violation({"kind": "new-process-startup", "group": g, "row": row},
+                          {k: b[k] for k in ("what", "expected", "observed")}, key=b["key"])
+    chk.add("new_process_startups", len(rows))
+    if rows:
+        chk.sample(show({"new_process_startup": {"conf": rows[-1][1]["conf"], "observed": obs[-1]}}), limit=9)
 
 
 # ---------------------------------------------------------------- code -> spec: random histories
@@ -730,6 +856,11 @@ def record_history(rnd: random.Random, tid: int, length: int, startups: bool = T
     return {"id": tid, "base": base0, "events": events}
 
 
+def _record_item(item: Tuple[int, int, int]) -> Dict[str, Any]:
+    base, tid, length = item
+    return record_history(random.Random(base * 100003 + tid), tid, length)
+
+
 def _rejects(out: str, n: int, what: str) -> List[Tuple[int, int, List[str]]]:
     """Verdict lines of a Trace_X03 run (TLC wraps long tuples); every trace has an ACCEPT or >= 1 REJECT."""
     acc = {int(m.group(1)) for m in re.finditer(r'<<\s*"ACCEPT",\s*(\d+)\s*>>', out)}
@@ -751,8 +882,10 @@ def _validate(traces: List[Dict[str, Any]], tag: str):
 
 
 def validate_histories(chk: Check, n: int, length: int, salt: int = 0) -> None:
-    rnd = random.Random(chk.seed * 7919 + 3 + salt)
-    traces = [record_history(rnd, i + 1, length) for i in range(n)]
+    items = [(chk.seed * 7919 + 3 + salt, i + 1, length) for i in range(n)]
+    traces = pmap(_record_item, items, workers=WORKERS, per_item_s=60.0, chunk=10)
+    if any("events" not in t for t in traces):
+        raise MachineryError("recording a history did not finish")
     r, f = _validate(traces, "hist")
     if r.violated:
         chk.violation({"kind": "history-theorem", "file": str(f)},
@@ -777,9 +910,9 @@ def validate_histories(chk: Check, n: int, length: int, salt: int = 0) -> None:
     chk.add("traces_validated_against_impl", len(traces))
     chk.add("trace_observations", nobs)
     chk.add("trace_states", r.distinct)
-    chk.sample({"history_head": {"base": traces[0]["base"],
-                                 "events": [{k: e[k] for k in ("op", "k", "v", "s", "obs")} for e in traces[0]["events"][:5]]}},
-               limit=8)
+    chk.sample(show({"history_head": {"base": traces[0]["base"],
+                                      "events": [{k: e[k] for k in ("op", "k", "v", "s", "obs")}
+                                                 for e in traces[0]["events"][:6]]}}), limit=10)
 
 
 # ---------------------------------------------------------------- tiers
@@ -788,6 +921,7 @@ def core(chk: Check, tier: str) -> None:
     harness()
     model_check_transitions(chk, list(GROUPS), rich=not quick, all_reads=not quick)
     model_check_startups(chk, STARTUP_GROUPS, rich=not quick)
+    new_process_startups(chk, STARTUP_GROUPS, rich=not quick, every=23 if quick else 5)
     validate_histories(chk, 250 if quick else 2500, 40 if quick else 60)
 
 
@@ -880,11 +1014,11 @@ def selftest(tier: str) -> int:
             lambda self: aps.default(self._settings.static_files_forbidden or self._settings.forbidden_static_files,
                                      defaults.static_files_forbidden)))
 
-    def old_alias_shadows_default_only():
-        # the deprecated name is consulted, but an explicit False under it is dropped
-        return patch(IS, "RELOAD_ON_FILE_CHANGE", property(
-            lambda self: aps.default(self._settings.reload_on_file_change,
-                                     self._settings.reload_on_template_change or defaults.reload_on_file_change)))
+    def old_forbidden_empty_list_dropped():
+        # the deprecated name is consulted, but an empty list under it falls through to the default
+        return patch(IS, "STATIC_FILES_FORBIDDEN", property(
+            lambda self: aps.default(self._settings.static_files_forbidden,
+                                     self._settings.forbidden_static_files or defaults.static_files_forbidden)))
 
     def context_behavior_unvalidated():
         return patch(IS, "CONTEXT_BEHAVIOR", property(
@@ -984,7 +1118,7 @@ def selftest(tier: str) -> int:
         ("instance-form-ignored", instance_form_ignored),
         ("deprecated-reload-name-ignored", reload_alias_ignored),
         ("deprecated-forbidden-name-beats-empty-list", forbidden_alias_needs_truthy_new),
-        ("deprecated-reload-name-false-dropped", old_alias_shadows_default_only),
+        ("deprecated-forbidden-name-empty-list-dropped", old_forbidden_empty_list_dropped),
         ("context-behavior-not-validated", context_behavior_unvalidated),
         ("invalid-context-behavior-falls-back", invalid_context_behavior_falls_back),
         ("context-behavior-case-insensitive", context_behavior_case_insensitive),
@@ -1027,7 +1161,43 @@ def selftest(tier: str) -> int:
     ok = chk.violations == 0 and chk.keyed == 0
     print(f"  explicit None honoured in the dict form (repair emulated in-process): violations={chk.violations} "
           f"known-finding cases={chk.keyed} -> {'clean' if ok else 'NOT CLEAN'}")
-    return rc if ok else 1
+    ok2 = _validate_proposed_diff()
+    return rc if ok and ok2 else 1
+
+
+def _validate_proposed_diff() -> bool:
+    """The diff of proposed_fixes/ itself: applied to a COPY of app_settings.py under workdir(), imported by
+    new processes in place of django_components.app_settings; every start-up configuration that gives
+    template_cache_size (and a sample of the others) must then show exactly what the specification
+    exports - no failure, known or not."""
+    import shutil
+    import subprocess
+    from .core import REPO, ROOT
+    diffs = sorted((ROOT / "proposed_fixes").glob(f"{PID}-explicit-none-cache-size-in-dict*.diff"))
+    if not diffs:
+        print("  proposed diff: none on file")
+        return True
+    w = workdir("x03fix")
+    dst = w / "src" / "django_components"
+    dst.mkdir(parents=True)
+    shutil.copy(REPO / "src" / "django_components" / "app_settings.py", dst / "app_settings.py")
+    p = subprocess.run(["patch", "-p1", "-s", "-d", str(w), "-i", str(diffs[0])], capture_output=True, text=True)
+    if p.returncode != 0:
+        print(f"  proposed diff {diffs[0].name}: does not apply to the current tree (already fixed?) - skipped")
+        return True
+    cfg = w / "su.cfg"
+    _group_cfg(cfg, "downstream", "su", False, False)
+    rows = _export("su:downstream", cfg)[0]
+    pick = [r for i, r in enumerate(rows)
+            if (any(g["k"] == "template_cache_size" for g in r["conf"]["given"]) and i % 3 == 0) or i % 40 == 0]
+    with ThreadPoolExecutor(max_workers=6) as ex:
+        obs = list(ex.map(lambda r: new_process_startup(r["conf"], str(dst / "app_settings.py")), pick))
+    nbad = sum(len(replay_startup(r, observed=o)) for r, o in zip(pick, obs))
+    none_rows = sum(1 for r in pick if r["devkey"])
+    print(f"  proposed diff {diffs[0].name} applied to a copy, {len(pick)} start-ups in new processes "
+          f"({none_rows} with an explicit None in a dict): failing observations={nbad} -> "
+          f"{'clean' if nbad == 0 else 'NOT CLEAN'}")
+    return nbad == 0
 
 
 # ---------------------------------------------------------------- replay
@@ -1044,6 +1214,8 @@ def replay(path: str) -> int:
         bad = replay_transition(case["row"], case.get("flavour", 0))
     elif kind == "startup":
         bad = replay_startup(case["row"], case.get("flavour", 0))
+    elif kind == "new-process-startup":
+        bad = replay_startup(case["row"], observed=new_process_startup(case["row"]["conf"]))
     elif kind == "history":
         t = _rerecord(case)
         r, _ = _validate([t], "replay")
@@ -1099,3 +1271,25 @@ def _rerecord(case: Dict[str, Any]) -> Dict[str, Any]:
     finally:
         live.close()
     return {"id": 1, "base": case["base"], "events": out}
+
+
+def _import_patched(path: str) -> None:
+    import importlib.abc
+    import importlib.util
+
+    class Finder(importlib.abc.MetaPathFinder):
+        def find_spec(self, name, _path, target=None):
+            if name == "django_components.app_settings":
+                return importlib.util.spec_from_file_location(name, path)
+            return None
+    sys.meta_path.insert(0, Finder())
+
+
+if __name__ == "__main__":          # python -m vf.x03 --child <json>: one start-up in a new process
+    if len(sys.argv) == 3 and sys.argv[1] == "--child":
+        if os.environ.get("X03_PATCHED_APP_SETTINGS"):
+            _import_patched(os.environ["X03_PATCHED_APP_SETTINGS"])
+        _a = json.loads(sys.argv[2])
+        print("X03CHILD " + json.dumps(_child_main(_a["conf"], _a["counts"])))
+        sys.exit(0)
+    sys.exit(2)
